@@ -493,21 +493,38 @@ def site_wfx_mo(ctx, rid):
 
 
 def site_molden_mo(ctx, rid):
+    """Molden `[MO]` reader: the whole section reader on a model stream (two alpha orbitals and one beta orbital over
+    three basis functions, all coefficients different): each orbital read becomes a column of its spin block."""
+    from ..accessors import AccessorEval, Raised, Rec
+
     prog = ctx.prog
     f = prog.func("iodata.formats.molden._load_helper_coeffs")
-    for var in ("coeffsa", "coeffsb"):
-        c = [(n.value, n) for n in f.own_nodes() if isinstance(n, ast.Assign) and any(isinstance(t, ast.Name) and t.id == var for t in n.targets) and isinstance(n.value, (ast.Call, ast.Attribute)) and var in {x.id for x in ast.walk(n.value) if isinstance(x, ast.Name)}]
-        if len(c) != 1:
-            raise AnalysisError(f"molden._load_helper_coeffs: cannot find the conversion of {var} to an array")
-        e = c[0][0]
-
-        def thunk(e=e, var=var):
-            cols = sym_array("col", (2, 3))
-            got = _SplitEval({var: [list(r) for r in cols]}, prog, f).eval(e)
-            want = np.array([[cols[j, i] for j in range(2)] for i in range(3)], dtype=object)
-            return got, want, "each orbital read from the file becomes a column: entry (basis function i, orbital j) = j-th list, item i"
-
-        _run(ctx, rid, f, e, f"Molden {var}", thunk)
+    licls = prog.cls("iodata.utils.LineIterator")
+    orbs = [("a1", -1.5, "Alpha", 2.0, [0.1, 0.2, 0.3]), ("b2", 0.5, "Alpha", 0.0, [0.4, 0.5, 0.6]), ("a1", -1.25, "Beta", 1.0, [0.7, 0.8, 0.9])]
+    lines = []
+    for sym, ene, spin, occ, col in orbs:
+        lines += [f" Sym= {sym}\n", f" Ene= {ene}\n", f" Spin= {spin}\n", f" Occup= {occ}\n"] + [f"{i + 1:4d} {c:.6f}\n" for i, c in enumerate(col)]
+    lit = Rec(licls, filename="F", fh=iter(lines), lineno=0, stack=[])
+    try:
+        ev = AccessorEval(prog, licls, limit=8000)
+        ev.module = f.module
+        res = ev.run_free(f, [lit], {})
+        (occsa, ca, ena, ira), (occsb, cb, enb, irb) = res
+        ca, cb = np.asarray(ca, dtype=float), np.asarray(cb, dtype=float)
+    except Raised as exc:
+        ctx.violate(rid, f"Molden [MO] reader raises {exc.args[0]} on a model section of three orbitals", f, f.node, construct="Molden coeffs: raises")
+        return
+    except NotSymbolic as exc:
+        raise AnalysisError(f"molden._load_helper_coeffs is outside the evaluation whitelist: {exc}") from exc
+    except (TypeError, ValueError) as exc:
+        raise AnalysisError(f"molden._load_helper_coeffs: unexpected result of the model evaluation: {exc}") from exc
+    want_a = np.array([orbs[0][4], orbs[1][4]]).T
+    want_b = np.array([orbs[2][4]]).T
+    for var, got, want in (("coeffsa", ca, want_a), ("coeffsb", cb, want_b)):
+        if got.shape != want.shape or np.abs(got - want).max() > 1e-9:
+            ctx.violate(rid, f"Molden {var}: the orbitals of the model section come back as {got.tolist()} (shape {got.shape}); each orbital read from the file becomes a column: entry (basis function i, orbital j) = j-th orbital, i-th coefficient, expected {want.tolist()}", f, f.node, construct=f"Molden {var}: orientation")
+        else:
+            ctx.ok(rid, f"Molden {var}: each orbital read from the file becomes a column (whole section reader on a model stream)", f"{f.module.relpath}:{f.lineno}")
 
 
 SITES = {
